@@ -97,3 +97,16 @@ Lemma quote_passthrough_refuted :
   /\ mysql_quote [] (bs "'a\'") = bs "'a\'" /\ lit_closed opts_mysql (mysql_quote [] (bs "'a\'")) = false.
 Proof. vm_compute. repeat split; reflexivity. Qed.
 
+
+(** example plans / directories used by the non-vacuity Examples and witnesses of Props_C07.v *)
+Local Open Scope string_scope.
+Lemma semi_eq : semi = delimiter. Proof. reflexivity. Qed.
+Definition ex_plan (d : bytes) : plan :=
+  mkPlan (bs "20240101000000") (bs "n") d [bs "-- atlas:txmode none"]
+    [mkChange (bs "CREATE TABLE `t;` (`c` int COMMENT ""x\""; -- y"")") (bs "create ""t;"" table") [bs "DROP TABLE `t;`"];
+     mkChange (bs "ALTER TABLE `t;` ADD COLUMN `d` varchar(9) DEFAULT 'a''b;'") [] []].
+Definition ex_tool_plan : plan :=
+  mkPlan [] [] [] [] [mkChange (bs "CREATE TABLE ""t;"" (c text DEFAULT 'a''b;')") (bs "create t") [bs "DROP TABLE t"]].
+Definition w_import_files : list (bytes * bytes) :=
+  [(bs "V2__a.sql", bs ("CREATE TABLE ta (a int);" ++ nl));
+   (bs "V10__b.sql", bs ("CREATE TABLE tb (a int);" ++ nl))].
